@@ -94,7 +94,7 @@ def divisors(n):
 
 SMALL_SHAPES = [(8,), (16,), (2, 8), (8, 2), (4, 16), (16, 4), (3, 32), (32, 3), (1, 16), (16, 1), (2, 4, 8), (4, 1, 8),
                 (2, 3, 4, 8), (4, 8, 8, 16), (5, 7), (7, 5), (6, 6), (12, 12), (2, 2, 2, 2), (64, 3), (3, 64), (128, 2),
-                (2, 256)]
+                (2, 256), (8, 1), (1, 8), (6, 4, 1, 1), (6, 4, 3, 1), (1, 5, 6), (6, 1, 1, 4)]  # unit dims opposite to the kept axis
 
 
 def int8pack_crash_class(dtype, weight_qtype_name, in_features, quantized_activations=False):
